@@ -182,12 +182,14 @@ def units(tier: str, seed: int) -> list[dict]:
             us.append({"P": P, "mode": "random", "runs": 80, "seed": seed})
             us.append({"P": P, "mode": "pct", "runs": 40, "seed": seed})
         else:
+            # the immediate / new-thread variants of the scheduled scenario have longer runs (a thread per action): smaller caps
+            cap = 15000 if P.get("sched") else 80000
             if small:
-                us.append({"P": P, "mode": "dfs", "bound": 3, "seed": seed, "max_runs": 80000})
+                us.append({"P": P, "mode": "dfs", "bound": 3, "seed": seed, "max_runs": cap})
             else:
-                us.append({"P": P, "mode": "dfs", "bound": 2, "seed": seed, "max_runs": 80000})
-            us.append({"P": P, "mode": "random", "runs": 2500, "seed": seed})
-            us.append({"P": P, "mode": "pct", "runs": 1200, "seed": seed})
+                us.append({"P": P, "mode": "dfs", "bound": 2, "seed": seed, "max_runs": cap})
+            us.append({"P": P, "mode": "random", "runs": 800 if P.get("sched") else 2500, "seed": seed})
+            us.append({"P": P, "mode": "pct", "runs": 400 if P.get("sched") else 1200, "seed": seed})
     us.append({"mode": "st", "n": 400 if tier == "quick" else 20000, "seed": seed})
     # free-running tier (real threads, bytecode-granular yield injection): everything that needs no scheduler thread
     for P in SCEN:
